@@ -8,7 +8,7 @@
     Definitions only. *)
 From Coq Require Import List ZArith Bool Arith Lia.
 Import ListNotations.
-From TI Require Import model.Iter model.IterSpec model.IterTie.
+From TI Require Import model.Iter model.IterSpec model.IterTie model.IterFin.
 Open Scope Z_scope.
 
 Definition is_frameb (x : out) : bool := match x with OFrame _ => true | _ => false end.
@@ -29,9 +29,27 @@ Record fcase := {
   f_closed_ops : list bool;     (* observed after every operation: iterator._closed *)
   f_others : list nat;          (* observed at the end: calls of _finalize_render_data_ on every OTHER render
                                    data object that came into being (abandoned by a failing constructor) *)
-  f_fin_caller : nat            (* observed at the very end, after the caller of _from_render_data_ has
+  f_fin_caller : nat;           (* observed at the very end, after the caller of _from_render_data_ has
                                    finalized its data itself *)
+  f_fin_faults : list nat;      (* schedule: the invocations (0-based, per data object) of
+                                   _finalize_render_data_ that raise RuntimeError *)
+  f_gc_raised : nat;            (* observed: finalizer exceptions reported as unraisable during
+                                   del iterator + gc.collect() (or while a failed constructor's data dies) *)
+  f_caller_raised : bool        (* observed: that final finalize() by the caller raised *)
 }.
+
+(** the finalizer's exception as the drivers report it *)
+Definition fin_err : out := OErr (ERender 90).
+Definition oracle (faults : list nat) (k : nat) : bool := existsb (Nat.eqb k) faults.
+Definition fout_obs_eqb (y : fout) (x : out) : bool :=
+  match y with FO x' => out_eqb x' x | FRaised _ => out_eqb fin_err x end.
+Definition fobs_eqb (a : fout * Z) (b : out * Z) : bool := fout_obs_eqb (fst a) (fst b) && (snd a =? snd b).
+Fixpoint list_eqb2 {A B} (eqb : A -> B -> bool) (a : list A) (b : list B) : bool :=
+  match a, b with
+  | [], [] => true
+  | x :: a', y :: b' => eqb x y && list_eqb2 eqb a' b'
+  | _, _ => false
+  end.
 
 Definition f_owns (t : fcase) : bool := negb (Nat.eqb (f_kind t) 1).
 
@@ -40,6 +58,7 @@ Section Model.
   Let tt := f_t t.
   Let render := t_render tt.
   Let nn := t_n tt.
+  Let fr := oracle (f_fin_faults t).
 
   (** per operation: (fin_calls, finalized, closed) after it *)
   Fixpoint ghost_trace (s : state vr_state) (ops : list op) : list (nat * bool * bool) :=
@@ -71,17 +90,23 @@ Section Model.
     | inr e, Some e' =>
       err_eqb e e' && match t_obs tt with [] => true | _ => false end
       && Nat.eqb (t_fin tt) 0 && negb (t_finalized_end tt)
-      && nat_list_eqb (f_others t)
-           (match mk vr_state nn term8030 (t_cfg tt) t_rs0 with inl _ => [1%nat] | inr _ => [] end)
+      && match mk vr_state nn term8030 (t_cfg tt) t_rs0 with
+         | inl _ => nat_list_eqb (f_others t) [1%nat]          (* the abandoned data dies: RenderData.__del__ *)
+                    && Nat.eqb (f_gc_raised t) (if fr 0%nat then 1 else 0)
+         | inr _ => nat_list_eqb (f_others t) [] && Nat.eqb (f_gc_raised t) 0
+         end
     | inl s, None =>
-      model_ok tt
+      list_eqb2 fobs_eqb (ftrace vr_state render nn term8030 fr s (t_ops tt)) (t_obs tt)
+      && list_eqb rcall_eqb (rev (log (gh (frun vr_state render nn term8030 fr s (t_ops tt))))) (t_log tt)
       && Nat.eqb (length (f_fin_ops t)) (length (t_ops tt))
       && Nat.eqb (length (f_fz_ops t)) (length (t_ops tt))
       && Nat.eqb (length (f_closed_ops t)) (length (t_ops tt))
       && list_eqb ghost_eqb (ghost_trace s (t_ops tt)) obs_ghost
-      && (let s' := run vr_state render nn term8030 s (t_ops tt ++ [Drop]) in   (* del + gc.collect() *)
+      && (let '(s', r) := fclose vr_state fr (frun vr_state render nn term8030 fr s (t_ops tt)) in  (* del + gc.collect() *)
           Nat.eqb (fin_calls (gh s')) (t_fin tt) && Bool.eqb (finalized (gh s')) (t_finalized_end tt)
-          && Nat.eqb (fin_calls (data_finalize (gh s'))) (f_fin_caller t))
+          && Nat.eqb (f_gc_raised t) (if r then 1 else 0)
+          && (let '(g, r2) := fdata_finalize fr (gh s') in                           (* the caller's finalize() *)
+              Nat.eqb (fin_calls g) (f_fin_caller t) && Bool.eqb r2 (f_caller_raised t)))
       && match f_others t with [] => true | _ => false end
     | _, _ => false
     end.
@@ -98,7 +123,7 @@ Definition ends (o : op) (x : out) : bool :=
   match o with Close | Drop => true | Next => is_endb x | _ => false end.
 
 (** walks the history: [ended] = the iterator has ended before this operation *)
-Fixpoint spec_walk (owns ended : bool) (ops : list op) (obs : list out) (fins : list nat) (fzs : list bool)
+Fixpoint spec_walk (owns may_raise ended : bool) (ops : list op) (obs : list out) (fins : list nat) (fzs : list bool)
   : bool :=
   match ops, obs, fins, fzs with
   | [], [], [], [] => true
@@ -107,14 +132,15 @@ Fixpoint spec_walk (owns ended : bool) (ops : list op) (obs : list out) (fins : 
         if ended then out_eqb x (ended_out o)
         else match o with
              | Next => is_frameb x || is_endb x
-             | Close | Drop => out_eqb x OOk
+             | Close | Drop => out_eqb x OOk || (owns && may_raise && out_eqb x fin_err)
              | _ => negb (is_frameb x) && negb (out_eqb x OStop) && negb (out_eqb x (OErr EFinalized))
+                    && negb (out_eqb x fin_err)
              end in
     let ended' := ended || ends o x in
     ok_out
     && Nat.eqb f (if owns && ended' then 1 else 0)       (* exactly once, exactly when it ends; never a caller's *)
     && Bool.eqb z (owns && ended')
-    && spec_walk owns ended' ops' obs' fins' fzs'
+    && spec_walk owns may_raise ended' ops' obs' fins' fzs'
   | _, _, _, _ => false
   end.
 
@@ -140,7 +166,12 @@ Definition spec10_ok (t : fcase) : bool :=
        (Nat.leb (t_fin tt) (if Nat.eqb (f_kind t) 2 then 1 else 0))
        && match t_obs tt with [] => true | _ => false end
      | None =>
-       spec_walk owns false (t_ops tt) (map fst (t_obs tt)) (f_fin_ops t) (f_fz_ops t)
+       spec_walk owns (negb (Nat.eqb (length (f_fin_faults t)) 0)) false
+                 (t_ops tt) (map fst (t_obs tt)) (f_fin_ops t) (f_fz_ops t)
+       (* the finalizer's exception surfaces at most once, and only if one was scheduled *)
+       && Nat.leb (length (filter (out_eqb fin_err) (map fst (t_obs tt))) + f_gc_raised t
+                   + (if f_caller_raised t then 1 else 0))
+                  (if Nat.eqb (length (f_fin_faults t)) 0 then 0 else 1)
        (* renders only happen for a [next] on a live iterator, one at most per [next] *)
        && Nat.leb (length (t_log tt)) (live_nexts false (t_ops tt) (map fst (t_obs tt)))
        (* after del + gc.collect(): the owner's data finalized exactly once, a caller's never *)
@@ -169,7 +200,9 @@ Record ocase := {
   o_fin_ret : list nat;         (* observed when the call returned / while its exception was still alive:
                                    per render data object handed out, calls of _finalize_render_data_ *)
   o_fin_gc : list nat;          (* the same after dropping the exception and gc.collect() *)
-  o_orphans : list nat          (* the same for render data objects abandoned half-built *)
+  o_orphans : list nat;         (* the same for render data objects abandoned half-built *)
+  o_fin_faults : list nat;      (* schedule: the invocations of _finalize_render_data_ that raise *)
+  o_unraisable : nat            (* observed: finalizer exceptions reported as unraisable (RenderData.__del__) *)
 }.
 
 Definition animated (n : option Z) : bool := match n with Some k => 2 <=? k | None => true end.
@@ -184,6 +217,7 @@ Section OModel.
   Let tt := o_t t.
   Let render := t_render tt.
   Let nn := t_n tt.
+  Let fr := oracle (o_fin_faults t).
 
   (** [_animate_], _renderable.py:749-809: first frame, set_padding(NO_PADDING), the rest;
       StopIteration ends it, an exception propagates; [finally: render_iter.close()] *)
@@ -236,9 +270,16 @@ Section OModel.
           (match fault with Some k => Some (ERender k) | None => None end, [1%nat], [1%nat], [], [rc])
     end.
 
+  (** the finalizer's exception: out of the [finally] of [_init_render_] / [draw()] when the
+      data is finalized there (it replaces the outcome); reported as unraisable when the data
+      is left to [RenderData.__del__] *)
   Definition omodel_ok : bool :=
-    let '(oc, fr, fg, orph, lg) := oneshot_model in
-    opt_err_eqb oc (t_ctor tt) && nat_list_eqb fr (o_fin_ret t) && nat_list_eqb fg (o_fin_gc t)
+    let '(oc, fr_, fg, orph, lg) := oneshot_model in
+    let at_return := nat_list_eqb fr_ [1%nat] in
+    let in_del := (negb (nat_list_eqb fr_ fg) || negb (nat_list_eqb orph [])) in
+    opt_err_eqb (if at_return && fr 0%nat then Some (ERender 90) else oc) (t_ctor tt)
+    && Nat.eqb (o_unraisable t) (if in_del && fr 0%nat then 1 else 0)
+    && nat_list_eqb fr_ (o_fin_ret t) && nat_list_eqb fg (o_fin_gc t)
     && nat_list_eqb orph (o_orphans t) && list_eqb rcall_eqb lg (t_log tt).
 End OModel.
 
@@ -254,6 +295,8 @@ Definition ospec_ok (t : ocase) : bool :=
   && forallb (Nat.eqb 1) (o_fin_gc t)
   && forallb (Nat.eqb 1) (o_orphans t)
   && forallb (fun k => Nat.leb k 1) (o_fin_ret t)
+  && Nat.leb (o_unraisable t + (if opt_err_eqb (t_ctor tt) (Some (ERender 90)) then 1 else 0))
+             (if Nat.eqb (length (o_fin_faults t)) 0 then 0 else 1)
   && (if Nat.eqb (o_mode t) 2 && opt_err_eqb (t_ctor tt) (Some ESizeRange) && match t_log tt with [] => true | _ => false end
       then true
       else forallb (Nat.eqb 1) (o_fin_ret t)).
